@@ -25,6 +25,7 @@
 #include <complex>
 #include <memory>
 #include <type_traits>
+#include <sys/wait.h>
 using namespace SimTK;
 using dense::LD; using dense::CL;
 
@@ -52,6 +53,8 @@ template <int M, class EE, int S> struct Make<Vec<M, EE, S> > { static Vec<M, EE
 template <int M, class EE, int S> struct Make<Row<M, EE, S> > { static Row<M, EE, S> go(const CL* in, int& k) { Row<M, EE, S> v; for (int i = 0; i < M; ++i) v[i] = Make<EE>::go(in, k); return v; } };
 template <class X> X make(const El& e) { int k = 0; return Make<X>::go(e.c, k); }
 
+// calibration aid: C25_TOLSCALE=<f> multiplies the comparison tolerances (notes/C25.md)
+static const double tolScale = getenv("C25_TOLSCALE") ? atof(getenv("C25_TOLSCALE")) : 1.0;
 template <class E> struct ET;   // root element types
 template <> struct ET<double> { enum { K = 1, cplx = 0, scalar = 1 }; static double tol() { return 1e-12; } static const char* name() { return "Real"; } };
 template <> struct ET<float> { enum { K = 1, cplx = 0, scalar = 1 }; static double tol() { return 3e-5; } static const char* name() { return "float"; } };
@@ -244,7 +247,7 @@ template <class E> struct History {
     Ctxt cx{K, (bool)ET<E>::cplx};
     Matrix_<E> M[3]; Vector_<E> V[2]; RowVector_<E> R[1];
     Sh sm[3], sv[2], sr[1];
-    pbt::Ctx& ctx; dense::Rng rng; const double tol = ET<E>::tol();
+    pbt::Ctx& ctx; dense::Rng rng; const double tol = ET<E>::tol() * tolScale;
     std::string trace;
     History(pbt::Ctx& c, uint64_t seed) : ctx(c), rng(seed) {}
 
@@ -279,9 +282,9 @@ template <class E> struct History {
         }
         return true;
     }
-    // known finding (UBSan only, benign): a block/row/column view at a non-zero offset into an owner that has no elements
+    // known finding (UBSan only, benign): a block/row/column view at a non-zero offset into an owner or view that has no elements (null data pointer)
     // computes nullptr + offset (MatrixHelperRep_Full.h getElt_/updElt_); -fno-sanitize-recover makes that fatal in the asan tree
-    bool nullOffset(int o, int offset) { if (offset > 0 && shadowOf(o).a.empty() && ctx.known("empty-matrix-view-null-offset")) { ctx.label("excluded:empty-matrix-view-null-offset"); return true; } return false; }
+    bool nullOffset(bool srcEmpty, int offset) { if (offset > 0 && srcEmpty && ctx.known("empty-matrix-view-null-offset")) { ctx.label("excluded:empty-matrix-view-null-offset"); return true; } return false; }
     El modelGet(const VM& v, int o, int i, int j) { return xform(shadowOf(o).a[v.idx[(size_t)i * v.n + j]], v, cx); }
     void modelSet(const VM& v, int o, int i, int j, const El& e) { shadowOf(o).a[v.idx[(size_t)i * v.n + j]] = xform(e, v, cx); }
     Sh modelValues(const VM& v, int o) { Sh s = shMake(v.m, v.n); for (int i = 0; i < v.m; ++i) for (int j = 0; j < v.n; ++j) s.at(i, j) = modelGet(v, o, i, j); return s; }
@@ -312,7 +315,7 @@ template <class E> struct History {
                 int i0 = vm.m ? p1 % (vm.m + 1) : 0, j0 = vm.n ? (p1 / 64) % (vm.n + 1) : 0; int mm = (p2 % 16) % (vm.m - i0 + 1), nn = ((p2 / 16) % 16) % (vm.n - j0 + 1);
                 if (vm.kind == 1) { j0 = 0; nn = 1; } if (vm.kind == 2) { i0 = 0; mm = 1; }
                 if ((p2 >> 12) & 1) { if (vm.kind != 2) mm = vm.m - i0; if (vm.kind != 1) nn = vm.n - j0; }
-                if (nullOffset(o, i0 + j0)) continue;
+                if (nullOffset(vm.idx.empty(), i0 + j0)) continue;
                 nv = view->block(i0, j0, mm, nn); nm.kind = vm.kind; nm.m = mm; nm.n = nn;
                 for (int i = 0; i < mm; ++i) for (int j = 0; j < nn; ++j) nm.idx.push_back(vm.idx[(size_t)(i0 + i) * vm.n + j0 + j]);
                 d << ".block(" << i0 << "," << j0 << "," << mm << "," << nn << ")";
@@ -323,9 +326,9 @@ template <class E> struct History {
             } else if (kindSel == 3) {
                 nv = view->negate(); nm = vm; nm.neg = !vm.neg; nm.depth = vm.depth + 1; d << ".negate()";
             } else if (kindSel == 4 && vm.kind == 0 && vm.n > 0) {
-                int j = p1 % vm.n; if (nullOffset(o, j)) continue; nv = view->col(j); nm.kind = 1; nm.m = vm.m; nm.n = 1; for (int i = 0; i < vm.m; ++i) nm.idx.push_back(vm.idx[(size_t)i * vm.n + j]); d << ".col(" << j << ")";
+                int j = p1 % vm.n; if (nullOffset(vm.idx.empty(), j)) continue; nv = view->col(j); nm.kind = 1; nm.m = vm.m; nm.n = 1; for (int i = 0; i < vm.m; ++i) nm.idx.push_back(vm.idx[(size_t)i * vm.n + j]); d << ".col(" << j << ")";
             } else if (kindSel == 5 && vm.kind == 0 && vm.m > 0) {
-                int i = p1 % vm.m; if (nullOffset(o, i)) continue; nv = view->row(i); nm.kind = 2; nm.m = 1; nm.n = vm.n; for (int j = 0; j < vm.n; ++j) nm.idx.push_back(vm.idx[(size_t)i * vm.n + j]); d << ".row(" << i << ")";
+                int i = p1 % vm.m; if (nullOffset(vm.idx.empty(), i)) continue; nv = view->row(i); nm.kind = 2; nm.m = 1; nm.n = vm.n; for (int j = 0; j < vm.n; ++j) nm.idx.push_back(vm.idx[(size_t)i * vm.n + j]); d << ".row(" << i << ")";
             } else if (kindSel == 6 && vm.kind == 0) {
                 int dd = std::min(vm.m, vm.n); nv = view->diag(); nm.kind = 1; nm.m = dd; nm.n = 1; for (int i = 0; i < dd; ++i) nm.idx.push_back(vm.idx[(size_t)i * vm.n + i]); d << ".diag()";
             } else if (kindSel == 7 && vm.kind != 0) {
@@ -436,7 +439,7 @@ template <class E> struct History {
         } else if (kind == 3 && o < 3) {   // owner = (possibly negated) block of another owner matrix: deep copy with reallocation
             int src = (o + 1 + r.pick(2)) % 3; Sh& ss = sm[src]; int i0 = ss.m ? r.pick(ss.m) : 0, j0 = ss.n ? r.pick(ss.n) : 0, mm = r.pick(ss.m - i0 + 1), nn = r.pick(ss.n - j0 + 1); bool neg = r.boolean();
             d << " = owner" << src << ".block(" << i0 << "," << j0 << "," << mm << "," << nn << ")" << (neg ? ".negate()" : "");
-            if (nullOffset(src, i0 + j0)) { i0 = j0 = 0; mm = std::min(mm, ss.m); nn = std::min(nn, ss.n); }
+            if (nullOffset(ss.a.empty(), i0 + j0)) { i0 = j0 = 0; mm = std::min(mm, ss.m); nn = std::min(nn, ss.n); }
             std::unique_ptr<IView> b(baseView(src)); std::unique_ptr<IView> bb(b->block(i0, j0, mm, nn)); std::unique_ptr<IView> fin; if (neg) fin.reset(bb->negate());
             IView* use = neg ? fin.get() : bb.get();
             Sh ns = shMake(mm, nn); for (int i = 0; i < mm; ++i) for (int j = 0; j < nn; ++j) { El x = ss.at(i0 + i, j0 + j); if (neg) x = mulS(x, CL(-1)); ns.at(i, j) = x; }
@@ -473,7 +476,7 @@ template <class T> T mk(CL z) { El e; e.c[0] = z; return make<T>(e); }
 
 template <int N, class T> struct Fixed {
     typedef dense::Mat<CL> DM;
-    pbt::Ctx& ctx; dense::Rng rng; LD tol = FT<T>::tol();
+    pbt::Ctx& ctx; dense::Rng rng; LD tol = FT<T>::tol() * tolScale;
     Fixed(pbt::Ctx& c, uint64_t seed) : ctx(c), rng(seed) {}
     CL rnd() { return FT<T>::cplx ? CL(rng.below(7) - 3, rng.below(7) - 3) : CL(rng.below(7) - 3, 0); }
     bool eq(CL a, CL b, LD sc, const std::string& what) { if (std::isfinite((double)std::abs(a)) && std::abs(a - b) <= tol * (sc + std::abs(a) + std::abs(b))) return true; ctx.fail("N=" + std::to_string(N) + (FT<T>::cplx ? " complex " : " real ") + what + ": got (" + pbt::str((double)a.real()) + "," + pbt::str((double)a.imag()) + ") model (" + pbt::str((double)b.real()) + "," + pbt::str((double)b.imag()) + ")"); return false; }
@@ -591,9 +594,33 @@ void property(const pbt::Tape& t, pbt::Ctx& ctx) {
 
 pbt::Config config() {
     pbt::Config c; c.prop = "C25"; c.K = 20; c.minUnits = 1;
-    c.quick = {2000, 20000, 40, 8}; c.thorough = {15000, 200000, 40, 20};
+    c.quick = {400, 20000, 40, 8}; c.thorough = {3000, 200000, 40, 25};   // minima sized for the asan tree (~50 ms/case there, ~1 ms in main)
     c.rule = "rapidcheck tape -> (80%) a history of <= 40 operations on a pool of 3 Matrix_, 2 Vector_, 1 RowVector_ of element type Real/float/Complex/Vec3/SpatialVec (shapes 0..8, sometimes ..12): each operation builds a view chain of depth 0..3 (block/sub-range incl. empty, transpose, negate, col, row, diag, index) on one owner and writes (scalar/element/matrix =, +=, -=, *=, /=, element write, elementwise ops, negateInPlace, row/col scaling) or queries (norms, sums, copy, products, binary operators) through it; every 4th kind of unit is an owner operation (resize, resizeKeep, clear, assign from a view of another owner, copy); all owners are compared element by element with the shadow model after every operation; (20%) fixed-size Vec/Row/Mat/SymMat arithmetic of sizes 1..6, real and complex. Non-trivial: a write through a view chain of depth >= 2, or a fixed-size case with N >= 3.";
     c.assumptions = {"values are small integers and scale factors from {+-2, +-0.5, 3, 0.25, 1.5, -1}: results are compared with a relative tolerance of 1e-12 (float 3e-5) of the data magnitude", "right-hand operands are freshly built objects (no aliasing with the written view)", "documented semantics: Matrix op scalar acts on the diagonal, Vector/RowVector op scalar on every element (MatrixBase.h, TestBigMatrix.cpp)"};
+    c.directed.push_back({"index-of-matrix-row", "index-view-ignores-stride", [](pbt::Ctx& ctx) {
+        Matrix m(2, 2); m(0, 0) = 1; m(0, 1) = 2; m(1, 0) = 3; m(1, 1) = 4; Array_<int> ix; ix.push_back(0); ix.push_back(1);
+        RowVectorView r = m.updRow(0); RowVectorView v = r.updIndex(ix);
+        ctx.desc << "Matrix [1 2;3 4]: row(0).index{0,1} = " << v << "\n";
+        ctx.check(v.size() == 2 && v[0] == 1 && v[1] == 2, "row(0).index{0,1} of [1 2;3 4] reads [" + pbt::str(v[0]) + " " + pbt::str(v[1]) + "] instead of [1 2]: the indexed view ignores the stride of its source");
+    }});
+    c.directed.push_back({"empty-index-of-one-element-row", "row-1elt-empty-index-shape", [](pbt::Ctx& ctx) {
+        Matrix m(1, 1); m(0, 0) = 1; Array_<int> none; RowVectorView v = m.updRow(0).updIndex(none); const MatrixBase<Real>& b = v;
+        ctx.desc << "1x1 matrix: row(0).index{} has shape " << b.nrow() << "x" << b.ncol() << "\n";
+        ctx.check(b.nrow() == 1 && b.ncol() == 0, "empty index view of a one-element row is " + std::to_string(b.nrow()) + "x" + std::to_string(b.ncol()) + " instead of 1x0");
+    }});
+    c.directed.push_back({"symmat33-inverse", "symmat3-inverse-wrong-elements", [](pbt::Ctx& ctx) {
+        SymMat33 T(2, 1, 3, 5, 1, 4); Mat33 M(T); Mat33 P = Mat33(inverse(T)) * M; double worst = 0; for (int i = 0; i < 3; ++i) for (int j = 0; j < 3; ++j) worst = std::max(worst, std::fabs(P(i, j) - (i == j ? 1 : 0)));
+        ctx.desc << "SymMat33 [2 1 5;1 3 1;5 1 4]: max |inverse(S)*S - I| = " << worst << "\n";
+        ctx.check(worst < 1e-12, "inverse(SymMat<3>) is not the inverse: max |inverse(S)*S - I| = " + pbt::str(worst));
+    }});
+    c.directed.push_back({"block-of-empty-matrix-at-offset", "empty-matrix-view-null-offset", [](pbt::Ctx& ctx) {
+        // undefined behaviour that only UBSan reports (nullptr + offset); run it in a child so that the report cannot kill the harness
+        fflush(nullptr); pid_t pid = fork();
+        if (pid == 0) { Matrix m(5, 0); MatrixView b = m.updBlock(3, 0, 2, 0); _exit(b.ncol() == 0 ? 0 : 1); }   // leading dimension 5, no data: nullptr + 3
+        int st = 0; waitpid(pid, &st, 0);
+        ctx.desc << "Matrix(5,0).updBlock(3,0,2,0) in a child process: " << (WIFEXITED(st) ? "exit " + std::to_string(WEXITSTATUS(st)) : std::string("killed by signal")) << "\n";
+        ctx.check(WIFEXITED(st) && WEXITSTATUS(st) == 0, "block view at a non-zero offset of a matrix without elements performs nullptr + offset (UndefinedBehaviorSanitizer report)");
+    }});
     c.requiredLabels = {"elt:Real", "elt:float", "elt:Complex", "elt:Vec3", "elt:SpatialVec", "depth:2", "depth:3", "view:negated", "view:transposed", "view:vector", "view:row", "owner-op:resizeKeep", "owner-op:assign-from-view", "fixed:N=6/real", "fixed:N=3/complex", "fixed:inverse", "fixed:symmat-inverse"};
     return c;
 }
